@@ -5,9 +5,13 @@
 // is one graph run under many delay seeds (node bodies sleep / yield by a pure function of
 // (seed, node), the hand-off windows of the taskManager are widened by the verifYield hook),
 // in batch mode (Graph, AnyPredecessor = pregel channels, AllPredecessor = dag channels) or
-// eager mode (Workflow). Direct oracle: all runs give the same result and the same execution
-// multiset, nothing hangs, nothing is left running at return, the ancestors of END finished
-// before the return. Correspondence: result and executions equal the Coq evaluator's canonical
+// eager mode (Workflow). Direct oracle: all runs give the same result and the same multiset of
+// executions feeding it, nothing hangs, no panic escapes, every node feeding END has finished
+// when a result is returned (batch: every started node), no task is collected twice or without
+// having been submitted (batch: every submitted task is collected exactly once before the return).
+// An eager run may return its result while nodes that do not feed END are still running, and it
+// returns a node error at once (the statement only requires the nodes feeding END to have
+// finished): both are recorded as tags, not failures. Correspondence: result and executions equal the Coq evaluator's canonical
 // prediction, and the hook traces of the hand-off protocol are accepted by the LTS of
 // Model/TaskMgr.v.
 package main
@@ -127,6 +131,8 @@ type runObs struct {
 	events  []compose.VerifC03Event
 	spawned int
 	collect int
+	wd      time.Duration
+	proto   string // "" or what is wrong with the submit/collect bookkeeping seen in the trace
 }
 
 type built struct {
@@ -264,7 +270,20 @@ func build(c *Case) *built {
 	return b
 }
 
-const watchdog = 10 * time.Second
+// A run that has not returned after the watchdog is a hang. After a hang the goroutines of that run
+// are still alive, so no further run of the same compiled graph is made; after three hanging cases
+// the remaining cases are run with a short watchdog and two delay seeds each (the verdict is
+// already decided, this only bounds the time a broken hand-off costs).
+const watchdogFull = 10 * time.Second
+
+var hangingCases int32
+
+func watchdog() time.Duration {
+	if atomic.LoadInt32(&hangingCases) >= 3 {
+		return 2 * time.Second
+	}
+	return watchdogFull
+}
 
 func (b *built) once(seed uint64, traced bool) *runObs {
 	rs := &runState{seed: seed, state: make([]int32, b.maxID+1), starts: make([]int32, b.maxID+1), logMu: make(chan struct{}, 1)}
@@ -284,9 +303,11 @@ func (b *built) once(seed uint64, traced bool) *runObs {
 	}()
 	o := &runObs{}
 	var r ret
+	wd := watchdog()
+	o.wd = wd
 	select {
 	case r = <-ch:
-	case <-time.After(watchdog):
+	case <-time.After(wd):
 		o.Class = "hang"
 	}
 	// what is still running at the moment of the return
@@ -329,6 +350,8 @@ func (b *built) once(seed uint64, traced bool) *runObs {
 	}
 	if traced {
 		main := mainTM(atReturn)
+		sub := map[string]int{}
+		got := map[string]int{}
 		for _, e := range atReturn {
 			if e.TM != main {
 				continue
@@ -336,8 +359,27 @@ func (b *built) once(seed uint64, traced bool) *runObs {
 			switch e.Kind {
 			case "spawn", "sync":
 				o.spawned++
+				sub[e.Key]++
+			case "recv":
+				got[e.Key]++
+				if got[e.Key] > sub[e.Key] && o.proto == "" {
+					if sub[e.Key] == 0 {
+						o.proto = "task " + e.Key + " was collected without having been submitted"
+					} else {
+						o.proto = "task " + e.Key + " was collected twice"
+					}
+				}
 			case "unlockC":
 				o.collect++
+			}
+		}
+		// the executions that feed a returned value must have been collected before the return
+		if o.Class == "val" && o.proto == "" {
+			for k, n := range sub {
+				id, ok := nodeNum(k)
+				if ok && b.anc[int(id)] && got[k] < n {
+					o.proto = "the run returned a value before task " + k + ", which feeds END, was collected"
+				}
 			}
 		}
 		// wait until every executor has left the protocol
@@ -506,13 +548,19 @@ func (engine) Generate(r *lib.Rng, tier string, i int) any {
 	b := build0(c)
 	// failures
 	if r.Chance(1, 5) {
-		var cand []int
+		var cand, nonAnc []int
 		for _, n := range c.Nodes {
 			if n.ID != idEnd && (c.Mode != "eager" || b[n.ID]) {
 				cand = append(cand, n.ID)
 			}
+			if n.ID != idEnd && c.Mode == "eager" && !b[n.ID] {
+				nonAnc = append(nonAnc, n.ID)
+			}
 		}
-		if len(cand) > 0 {
+		if len(nonAnc) > 0 && r.Chance(1, 3) {
+			// eager: a failing node that does not feed END races with END (finding F-C03c)
+			setFail(c, nonAnc[r.Intn(len(nonAnc))], 1+r.Intn(2))
+		} else if len(cand) > 0 {
 			f := cand[r.Intn(len(cand))]
 			kind := 1 + r.Intn(2)
 			setFail(c, f, kind)
@@ -787,40 +835,47 @@ func (engine) Run(ci any) lib.Result {
 			nfail++
 		}
 	}
+	// a known-finding signature (prefix "eager-") must not mask another failure of the same case
 	fail := func(sig, what string) {
-		if res.Oracle == "" {
+		if res.Oracle == "" || strings.HasPrefix(res.Sig, "eager-") && !strings.HasPrefix(sig, "eager-") {
 			res.Oracle, res.Sig = what, sig
 		}
 	}
+	leftNonAnc, leftAtErr := false, false
+	failNonAnc := c.Mode == "eager" && hasFailNonAnc(b)
+	hung := false
 	for k, seed := range c.Seeds {
+		if hung || atomic.LoadInt32(&hangingCases) >= 3 && k >= 2 {
+			break
+		}
 		traced := k < c.Traced
 		o := b.once(seed, traced)
 		out.Runs++
 		if o.Class == "hang" {
-			fail("hang", fmt.Sprintf("run with delay seed %d did not return within %v", seed, watchdog))
+			hung = true
+			atomic.AddInt32(&hangingCases, 1)
+		}
+		if o.Class == "hang" {
+			fail("hang", fmt.Sprintf("run with delay seed %d did not return within %v", seed, o.wd))
 		}
 		if o.Class == "panic" {
 			fail("escaped-panic", fmt.Sprintf("run with delay seed %d panicked on the caller's goroutine", seed))
 		}
-		// started executions must not be left running
+		// started executions still running at the return
 		if len(o.Running) > 0 {
 			out.Uncoll++
-			sig, what := "", ""
 			switch {
 			case c.Mode == "eager" && o.Class == "val" && allNonAnc(b, o.Running):
-				sig = "eager-return-leaves-non-ancestor-running"
-				what = fmt.Sprintf("eager run returned its result while node(s) %v, not feeding END, were still running (never collected)", o.Running)
+				leftNonAnc = true // permitted: only the nodes feeding END must have finished
 			case c.Mode == "eager" && o.Class == "err":
-				sig = "eager-error-return-leaves-running"
-				what = fmt.Sprintf("eager run returned a node error while node(s) %v were still running (never collected)", o.Running)
+				leftAtErr = true // a node error is returned at once
 			default:
-				sig = "returned-before-nodes-finished"
-				what = fmt.Sprintf("%s run returned (%s) while node(s) %v were still running", c.Mode, o.Class, o.Running)
+				fail("returned-before-nodes-finished",
+					fmt.Sprintf("%s run returned (%s) while node(s) %v were still running", c.Mode, o.Class, o.Running))
 			}
-			// a known-finding signature must not mask another failure of the same case
-			if res.Oracle == "" || strings.HasPrefix(res.Sig, "eager-") && !strings.HasPrefix(sig, "eager-") {
-				res.Oracle, res.Sig = what, sig
-			}
+		}
+		if o.proto != "" {
+			fail("collect-bookkeeping", fmt.Sprintf("delay seed %d: %s", seed, o.proto))
 		}
 		if traced {
 			out.Traces++
@@ -847,15 +902,6 @@ func (engine) Run(ci any) lib.Result {
 			if out.FirstDiff == "" {
 				out.FirstDiff = fmt.Sprintf("seed %d: %s %v vs seed %d: %s %v", c.Seeds[0], first.Class, first.Val, seed, o.Class, o.Val)
 			}
-			what := "result"
-			if sameVal(first, o) {
-				what = "execution multiset"
-			}
-			sig := "order-dependent-" + strings.ReplaceAll(what, " ", "-")
-			msg := fmt.Sprintf("%s differs between delay seeds %d and %d", what, c.Seeds[0], seed)
-			if res.Oracle == "" || strings.HasPrefix(res.Sig, "eager-") {
-				res.Oracle, res.Sig = msg, sig
-			}
 			dup := false
 			for _, d := range distinct {
 				if sameVal(d, o) && sameLog(d.Log, o.Log) {
@@ -863,7 +909,28 @@ func (engine) Run(ci any) lib.Result {
 				}
 			}
 			if !dup {
+				// F-C03c: an eager run with a failing node that does not feed END returns the value or
+				// the error, whichever comes first. Exactly that difference (value vs error, every
+				// value run equal to every other value run) gets the known signature.
+				known := failNonAnc && first.Class != o.Class && isValErr(first.Class, o.Class)
+				for _, d := range distinct {
+					if d.Class == o.Class {
+						known = false // two different observations of the same class
+					}
+				}
 				distinct = append(distinct, o)
+				if known {
+					fail("eager-result-depends-on-failing-non-ancestor", fmt.Sprintf(
+						"eager run: result is a %s with delay seed %d and a %s with delay seed %d (a failing node that does not feed END races with END)",
+						className(first.Class), c.Seeds[0], className(o.Class), seed))
+				} else {
+					what := "result"
+					if sameVal(first, o) {
+						what = "execution multiset"
+					}
+					fail("order-dependent-"+strings.ReplaceAll(what, " ", "-"),
+						fmt.Sprintf("%s differs between delay seeds %d and %d", what, c.Seeds[0], seed))
+				}
 			}
 		}
 	}
@@ -876,8 +943,14 @@ func (engine) Run(ci any) lib.Result {
 	if nfail > 0 {
 		res.Tags = append(res.Tags, fmt.Sprintf("failing:%d", nfail))
 	}
-	if out.Uncoll > 0 {
-		res.Tags = append(res.Tags, "left-running-at-return")
+	if leftNonAnc {
+		res.Tags = append(res.Tags, "left-running:non-ancestor-at-value-return")
+	}
+	if leftAtErr {
+		res.Tags = append(res.Tags, "left-running:at-error-return")
+	}
+	if failNonAnc {
+		res.Tags = append(res.Tags, "failing-non-ancestor")
 	}
 	maxPar := parallelism(c)
 	res.Tags = append(res.Tags, fmt.Sprintf("par:%d", maxPar))
@@ -889,6 +962,26 @@ func (engine) Run(ci any) lib.Result {
 	}
 	res.CoqTerm = fmt.Sprintf("mkcase %d %s [%s] [%s]", modeN, c.coqGraph(), strings.Join(obsS, ";"), strings.Join(traces, ";\n  "))
 	return res
+}
+
+func isValErr(a, b string) bool {
+	return a == "val" && b == "err" || a == "err" && b == "val"
+}
+
+func className(c string) string {
+	if c == "val" {
+		return "value"
+	}
+	return "node error"
+}
+
+func hasFailNonAnc(b *built) bool {
+	for _, n := range b.c.Nodes {
+		if n.Fail != 0 && !b.anc[n.ID] {
+			return true
+		}
+	}
+	return false
 }
 
 func allNonAnc(b *built, ids []int) bool {
